@@ -8,7 +8,7 @@ S=/tmp/seedchk-$$
 WRAP=$(python3 -c "
 import json,re,sys
 try:
-    m=json.load(open('$D/meta.json')); print(' '.join(sorted(set(re.findall(r'-Wl,--wrap=[A-Za-z_,=\\-]+', json.dumps(m))))))
+    m=json.load(open('$D/meta.json')); print(' '.join(sorted(set(re.findall(r'-Wl,--wrap=[A-Za-z_,=\\-]+', json.dumps(m)) + re.findall(r'(?<= )-O[0-3s]\\b', str(m.get('compile', '')))))))
 except Exception: pass" 2>/dev/null)
 rm -rf $S; cp -a /repo $S
 cd $S
